@@ -23,7 +23,7 @@ BUILD = ROOT / 'build'
 EVID = Path(os.environ.get('VERIF_EVIDENCE_DIR') or (ROOT / 'evidence'))   # mutation runs write elsewhere
 REPO = Path(os.environ.get('FURAX_REPO', '/repo'))
 TLA_CP = '/opt/veriftools/tla/tla2tools.jar:/opt/veriftools/tla/CommunityModules-deps.jar'
-NPROC = min(16, os.cpu_count() or 4)
+NPROC = int(os.environ.get('VERIF_PROCS', 0)) or min(16, os.cpu_count() or 4)
 
 
 class MachineryError(Exception):
